@@ -169,8 +169,12 @@ reg(Fn(IM + 'reshape_mut', ret='r', valid=RM_VALID,
                 'C15.reshape_mut.wf:: wf(*r)',
                 'C15.reshape_mut.ret:: *final(r) == *final(self)'],
        panics={k: 'REJECT' for k in range(1, 7)},
-       hints=[('self.nrows = size / ncols as usize;', 'after', 'proof { lemma_div_exact(size as int, ncols as int); }'),
-              ('self.ncols = size / nrows as usize;', 'after', 'proof { lemma_div_exact(size as int, nrows as int); }')]))
+       hints=[('self.nrows = size / ncols as usize;', 'after', 'proof { lemma_div_exact(size as int, ncols as int); lemma_div_facts(size as int, ncols as int); '
+               'assert(self.nrows * self.ncols == size); assert(self.nrows <= size && self.ncols <= i32max()); assert(wf(*self)); }'),
+              ('self.ncols = size / nrows as usize;', 'after', 'proof { lemma_div_exact(size as int, nrows as int); lemma_div_facts(size as int, nrows as int); '
+               'assert(self.nrows * self.ncols == size); assert(self.ncols <= size && self.nrows <= i32max()); assert(wf(*self)); }'),
+              ('self.ncols = ncols as usize;\n                    } else if nrows < 0', 'replace',
+               'self.ncols = ncols as usize; proof { assert(self.nrows * self.ncols == size); assert(wf(*self)); }\n                    } else if nrows < 0')]))
 
 
 # ---------------------------------------------------------------- derived constructors
